@@ -72,12 +72,43 @@ class Seam:
         return os.path.abspath(p)
 
     def _resolve(self, path, dir_fd, follow_final):
+        """where the operation would land, resolved the way the KERNEL walks the path: '..' is taken from a directory that
+        exists, symlinks are followed, and a missing intermediate component means the operation fails with ENOENT (then
+        there is nothing to judge: None).  os.path.realpath would normalise 'missing/../x' lexically to 'x'."""
         p = self._abs(path, dir_fd)
         if p is None:
             return None
-        if follow_final:
-            return os.path.realpath(p)
-        return os.path.join(os.path.realpath(os.path.dirname(p)), os.path.basename(p))
+        # os.path.abspath already collapsed 'a/../b' lexically; redo it from the raw string
+        raw = os.fsdecode(path)
+        if dir_fd is not None and isinstance(dir_fd, int) and not os.path.isabs(raw):
+            try:
+                raw = os.path.join(os.readlink(f"/proc/self/fd/{dir_fd}"), raw)
+            except OSError:
+                pass
+        if not os.path.isabs(raw):
+            raw = os.path.join(os.getcwd(), raw)
+        comps = [c for c in raw.split("/") if c not in ("", ".")]
+        cur = "/"
+        for i, c in enumerate(comps):
+            last = i == len(comps) - 1
+            if c == "..":
+                cur = os.path.dirname(cur)
+                continue
+            nxt = os.path.join(cur, c)
+            if os.path.islink(nxt) and (not last or follow_final):
+                target = os.path.realpath(nxt)
+                if not os.path.exists(target) and not last:
+                    return None
+                cur = target
+            elif os.path.lexists(nxt):
+                if not last and not os.path.isdir(nxt):
+                    return None          # ENOTDIR
+                cur = nxt
+            else:
+                if not last:
+                    return None          # ENOENT: a missing intermediate directory
+                cur = nxt
+        return cur
 
     def mask(self, p):
         if p is None:
